@@ -81,6 +81,7 @@ def pilot_descr(root, uid=None, runtime=10, cores=4):
     pd = rp.PilotDescription({'resource': 'local.localhost',
                               'runtime' : runtime,
                               'cores'   : cores,
+                              'exit_on_error': False,
                               'sandbox' : '%s/sbox' % root})
     if uid:
         pd.uid = uid
